@@ -506,7 +506,7 @@ func faults(c *ctx) {
 	var graphs []fGraph
 	seen := map[string]bool{}
 	var cases []fCase
-	res := c.tlc(tlcrun.Options{Module: "ScanFaultsMC", Config: cfg, Workers: 2, TimeoutSec: 2400, OnCase: func(raw []byte) {
+	res := c.tlc(tlcrun.Options{Module: "ScanFaultsMC", Config: cfg, Workers: 4, TimeoutSec: 2400, OnCase: func(raw []byte) {
 		if strings.HasPrefix(string(raw), `{"graphs"`) {
 			var h struct {
 				Graphs []fGraph `json:"graphs"`
